@@ -232,7 +232,7 @@ impl<F: Float, L: Label + std::fmt::Debug> TreeNode<F, L> {
 
             // We keep a running total of the aggregate weight in the right split
             // to avoid having to sum over the hash map
-            let total_weight = parent_class_freq.values().sum::<f32>();
+            let total_weight = sorted_weights(&parent_class_freq).into_iter().sum::<f32>();
             let mut weight_on_right_side = total_weight;
             let mut weight_on_left_side = 0.0;
 
@@ -646,20 +646,35 @@ fn make_prediction<F: Float, L: Label>(
     }
 }
 
+/// Class weights in the order of their labels, so that results computed from them do not depend
+/// on the iteration order of the hash map
+fn sorted_entries<L: Label>(class_freq: &HashMap<L, f32>) -> Vec<(&L, &f32)> {
+    let mut entries = class_freq.iter().collect::<Vec<_>>();
+    entries.sort_by(|a, b| a.0.cmp(b.0));
+    entries
+}
+
+fn sorted_weights<L: Label>(class_freq: &HashMap<L, f32>) -> Vec<f32> {
+    sorted_entries(class_freq)
+        .into_iter()
+        .map(|(_, weight)| *weight)
+        .collect()
+}
+
 /// Finds the most frequent class for a hash map of frequencies. If two
-/// classes have the same weight then the first class found with that
+/// classes have the same weight then the smallest class with that
 /// frequency is returned.
 fn find_modal_class<L: Label>(class_freq: &HashMap<L, f32>) -> L {
     #[cfg(linfa_verif)]
     linfa::verif_hooks::note_order("trees.find_modal_class", class_freq.keys());
     // TODO: Refactor this with fold_first
 
-    let val = class_freq
-        .iter()
+    let val = sorted_entries(class_freq)
+        .into_iter()
         .fold(None, |acc, (idx, freq)| match acc {
             None => Some((idx, freq)),
             Some((_best_idx, best_freq)) => {
-                if best_freq > freq {
+                if best_freq >= freq {
                     acc
                 } else {
                     Some((idx, freq))
@@ -676,11 +691,12 @@ fn find_modal_class<L: Label>(class_freq: &HashMap<L, f32>) -> L {
 fn gini_impurity<L: Label>(class_freq: &HashMap<L, f32>) -> f32 {
     #[cfg(linfa_verif)]
     linfa::verif_hooks::note_order("trees.gini_impurity", class_freq.keys());
-    let n_samples = class_freq.values().sum::<f32>();
+    let weights = sorted_weights(class_freq);
+    let n_samples = weights.iter().sum::<f32>();
     assert!(n_samples > 0.0);
 
-    let purity = class_freq
-        .values()
+    let purity = weights
+        .iter()
         .map(|x| x / n_samples)
         .map(|x| x * x)
         .sum::<f32>();
@@ -692,11 +708,12 @@ fn gini_impurity<L: Label>(class_freq: &HashMap<L, f32>) -> f32 {
 fn entropy<L: Label>(class_freq: &HashMap<L, f32>) -> f32 {
     #[cfg(linfa_verif)]
     linfa::verif_hooks::note_order("trees.entropy", class_freq.keys());
-    let n_samples = class_freq.values().sum::<f32>();
+    let weights = sorted_weights(class_freq);
+    let n_samples = weights.iter().sum::<f32>();
     assert!(n_samples > 0.0);
 
-    class_freq
-        .values()
+    weights
+        .iter()
         .map(|x| x / n_samples)
         .map(|x| if x > 0.0 { -x * x.log2() } else { 0.0 })
         .sum()
